@@ -116,6 +116,25 @@ fn main() {
         }
         return;
     }
+    if args.len() >= 5 && args[1] == "dcalc" {
+        // debugging aid: dcalc <amp> <decimals,comma> <reserves,comma> -> contract mint-path D vs exact D
+        let amp: u64 = args[2].parse().unwrap();
+        let decs: Vec<u8> = args[3].split(',').map(|x| x.parse().unwrap()).collect();
+        let res: Vec<u128> = args[4].split(',').map(|x| x.parse().unwrap()).collect();
+        println!("{}", props::c19::dcalc(amp, &decs, &res));
+        return;
+    }
+    if args.len() >= 8 && args[1] == "mintcalc" {
+        // debugging aid: mintcalc <amp> <decimals> <old reserves> <new reserves> <supply> <swap fee bps>
+        let amp: u64 = args[2].parse().unwrap();
+        let decs: Vec<u8> = args[3].split(',').map(|x| x.parse().unwrap()).collect();
+        let old: Vec<u128> = args[4].split(',').map(|x| x.parse().unwrap()).collect();
+        let new: Vec<u128> = args[5].split(',').map(|x| x.parse().unwrap()).collect();
+        let supply: u128 = args[6].parse().unwrap();
+        let fee: u64 = args[7].parse().unwrap();
+        println!("{}", props::c19::mintcalc(amp, &decs, &old, &new, supply, fee));
+        return;
+    }
     if args.len() < 3 || args[1] != "check" {
         usage();
     }
